@@ -2,6 +2,8 @@
 package p13
 
 import (
+	"bytes"
+	"context"
 	"fmt"
 	"math"
 	"os"
@@ -10,6 +12,7 @@ import (
 	"strconv"
 	"strings"
 	"testing"
+	"time"
 	"unicode"
 
 	"pgregory.net/rapid"
@@ -30,7 +33,8 @@ type Case struct {
 	Classes  []string    `json:"arg_classes"`
 	Why      string      `json:"why"`
 	FailFast bool        `json:"fail_fast,omitempty"`
-	NumRange *[2]float64 `json:"num_range,omitempty"` // the single output line is a number in [lo, hi) and integral if IntOnly
+	CLIOut   bool        `json:"cli_output,omitempty"` // compare evy run\'s stdout with the recorded print text
+	NumRange *[2]float64 `json:"num_range,omitempty"`  // the single output line is a number in [lo, hi) and integral if IntOnly
 	IntOnly  bool        `json:"int_only,omitempty"`
 	ExitCode *int        `json:"exit_code,omitempty"` // also run the real binary and compare the status
 }
@@ -103,6 +107,36 @@ func checkCase(c Case) *h.Failure {
 		if fl := cliExit(c); fl != nil {
 			return fl
 		}
+	}
+	if c.CLIOut && res.Out.Class == "ok" && c.NumRange == nil {
+		if fl := cliOutput(c, text); fl != nil {
+			return fl
+		}
+	}
+	return nil
+}
+
+// cliOutput: what a program prints is the same text on the command line's platform as on
+// the recording platform (print writes its arguments to the output, builtins.md#print).
+func cliOutput(c Case, text string) *h.Failure {
+	bin := filepath.Join(os.Getenv("VERIF_BUILD"), "evy")
+	if _, err := os.Stat(bin); err != nil {
+		return nil
+	}
+	dir, _ := os.MkdirTemp("", "verif-c13-")
+	defer os.RemoveAll(dir)
+	f := filepath.Join(dir, "p.evy")
+	os.WriteFile(f, []byte(c.Src), 0o644) //nolint:errcheck
+	ctx, cancel := context.WithTimeout(context.Background(), 30*time.Second)
+	defer cancel()
+	cmd := exec.CommandContext(ctx, bin, "run", "--skip-sleep", f)
+	var so, se bytes.Buffer
+	cmd.Stdout, cmd.Stderr = &so, &se
+	if err := cmd.Run(); err != nil {
+		return nil // exit status and messages are cliExit's business
+	}
+	if so.String() != text {
+		return &h.Failure{Kind: "cli-output", Detail: fmt.Sprintf("%s: evy run prints %q, the program's print calls produce %q", c.Fn, so.String(), text), Src: c.Src, Case: c}
 	}
 	return nil
 }
@@ -799,6 +833,10 @@ func TestProp(t *testing.T) {
 		t.Skip("replay run")
 	}
 	ctx := h.Setup(t, "C13")
+	nout, outBudget := 0, 60
+	if os.Getenv("VERIF_TIER") == "thorough" {
+		outBudget = 600
+	}
 	ncli, cliBudget := 0, 30
 	if ctx.Thorough() {
 		cliBudget = 300
@@ -826,6 +864,11 @@ func TestProp(t *testing.T) {
 				ncli++
 				ctx.Rec.Add("evy_run_exit_status_cases", 1)
 			}
+		}
+		if nout < outBudget && c.Class == "ok" && c.NumRange == nil && !strings.Contains(c.Src, "read") && rapid.IntRange(0, 40).Draw(t, "cliout") == 0 {
+			nout++
+			c.CLIOut = true
+			ctx.Rec.Add("evy_run_output_cases", 1)
 		}
 		fl := checkCase(c)
 		ctx.Rec.Case(true, c.Fn+"|"+strings.Join(c.Classes, ",")+"|"+c.Src, "builtin:"+c.Fn)
